@@ -11,6 +11,9 @@
  */
 #ifndef VF_TAPE_H
 #define VF_TAPE_H
+#ifndef VF_CBMC
+#include <unistd.h>
+#endif
 #ifndef VF_TAPE_MAX
 #define VF_TAPE_MAX 64
 #endif
@@ -28,6 +31,8 @@ uint64_t GK2;
 
 #ifdef VF_CBMC
 uint64_t G_len, G_pos;
+int G_open;                 /* number of open input handles (0 or 1) */
+uint8_t IN_openfail;        /* input: may fopen fail? (0 = never) */
 uint8_t W_tape[VF_WTAPE_MAX];
 uint64_t W_pos;
 bool G_eof;
@@ -36,6 +41,15 @@ static inline void vf_tape_open(void) {
     __CPROVER_assume(G_len <= VF_TAPE_MAX && G_pos <= G_len);
     G_file = (FILE *)malloc(1);
     __CPROVER_assume(G_file != NULL);
+    G_open = 1;
+}
+/* a file on disk that the function under test opens itself (by name) */
+static inline const char *vf_tape_file(void) {
+    G_len = IN_len; G_pos = 0; G_eof = false; G_open = 0;
+    __CPROVER_assume(G_len <= VF_TAPE_MAX);
+    G_file = (FILE *)malloc(1);
+    __CPROVER_assume(G_file != NULL);
+    return "tape";
 }
 static inline void vf_wtape_open(void) {
     W_pos = 0;
@@ -67,6 +81,24 @@ static inline void vf_tape_open(void) {
     fflush(G_file); fseek(G_file, (long)IN_pos0, SEEK_SET);
 }
 static inline void vf_wtape_open(void) { W_file = tmpfile(); }
+static char vf_tape_path[64];
+static int vf_fd_count(void) {
+    int n = 0; char p[64];
+    for (int fd = 0; fd < 256; fd++) { snprintf(p, sizeof p, "/proc/self/fd/%d", fd); if (access(p, F_OK) == 0) n++; }
+    return n;
+}
+static int vf_fd0;
+static inline const char *vf_tape_file(void) {
+    VF_ASSUME(IN_len <= VF_TAPE_MAX);
+    snprintf(vf_tape_path, sizeof vf_tape_path, "/tmp/vf_tape_%d.bin", (int)getpid());
+    FILE *f = fopen(vf_tape_path, "wb");
+    if (IN_len) fwrite(IN_tape, 1, IN_len, f);
+    fclose(f);
+    vf_fd0 = vf_fd_count();
+    return vf_tape_path;
+}
+/* number of handles the function under test left open */
+#define G_open (vf_fd_count() - vf_fd0)
 static inline void vf_tape_close(void) { fclose(G_file); }
 static inline void vf_wtape_close(void) { fclose(W_file); }
 #endif
